@@ -330,7 +330,7 @@ PROPS["C17"] = {
     "groups": [
         {"dir": "p2p/conn",
          "quick": ["VP_C17_Deliver_2x9", "VP_C17_HostilePackets_2"],
-         "thorough": ["VP_C17_Deliver_3x9", "VP_C17_Deliver_4x5", "VP_C17_HostilePackets_3"]},
+         "thorough": ["VP_C17_Deliver_3x9", "VP_C17_HostilePackets_3"]},
         {"dir": "consensus",
          "quick": ["VP_C17_CoreSurvivesVote", "VP_C17_CoreSurvivesProposal", "VP_C17_CoreSurvivesBlockPart", "VP_C17_ReactorStateMessages"],
          "thorough": []},
@@ -339,7 +339,7 @@ PROPS["C17"] = {
          "thorough": []},
     ],
     "bounds": {
-        "delivery (H1)": "real MConnection pair over an in-memory link, packet payload size 4: the real send side (Channel queues, sendPacketMsg channel selection by priority/recently-sent ratio, nextPacketMsg, protoio framing, flush) called step by step, the real receive routine running as a goroutine under the engine scheduler; 2 channels of different priority; 2 (thorough 3-4) messages of arbitrary bytes, each of any length 0..9 (thorough 4 messages: 0..5) on either channel, with 0-2 packets sent between two sends",
+        "delivery (H1)": "real MConnection pair over an in-memory link, packet payload size 4: the real send side (Channel queues, sendPacketMsg channel selection by priority/recently-sent ratio, nextPacketMsg, protoio framing, flush) called step by step, the real receive routine running as a goroutine under the engine scheduler; 2 channels of different priority; 2 (thorough 3) messages of arbitrary bytes, each of any length 0..9 on either channel, with 0-2 packets sent between two sends",
         "hostile packets (H1b)": "2 (thorough 3) packets written to the real receive routine: PacketMsg with arbitrary int32 channel id, arbitrary EOF flag, arbitrary data of length {0,4,7} against a message capacity of 6; ping; pong; empty Packet",
         "state sync reactor (H2, partly)": "an invalid ChunkResponse / SnapshotsResponse through the real statesync Reactor.ReceiveEnvelope concurrently with Reactor.Sync (which takes the reactor's lock for writing), the switch's StopPeerForError calling back into RemovePeer; up to 3 pre-emptions at lock operations; RWMutex modelled with Go's writer precedence; both activities must finish",
         "consensus reactor, state channel (H2, partly)": "one NewRoundStep / HasVote / VoteSetMaj23 / ProposalPOL message with arbitrary height 0..3, round -1..2, step 0..9, last-commit round -2..2, index -1..5 through the real Reactor.ReceiveEnvelope; afterwards the consensus-state lock and the peer-state lock can be taken (no wedge), whether the call returned or panicked",
